@@ -337,7 +337,15 @@ func (sr *scopeRun) noteGauge(m tally.Gauge, p int, name string) {
 		full = pfx + sr.sepS + full
 	}
 	sr.mScope[id] = p
-	sr.mNT[id] = hxs(full) + "|" + mapHex(tally.VerifScopeTags(sr.scopes[p]))
+	nt := hxs(full) + "|" + mapHex(tally.VerifScopeTags(sr.scopes[p]))
+	sr.mNT[id] = nt
+	// two gauge OBJECTS can share one reported identity without sharing a scope (gauge "a:b" on the root and gauge "b"
+	// on SubScope("a") with separator ":"): which of them a pass visits last is map order, so "latest" is not defined
+	for other, ont := range sr.mNT {
+		if other != id && ont == nt {
+			sr.gFuzzy[nt] = true
+		}
+	}
 }
 
 func (sr *scopeRun) noteUpd(mid int, v float64) {
